@@ -973,7 +973,7 @@ class Runner:
             for (name, ty, ini) in [(o.name, o.ty, o.ini)] + [(cid, ct, ci) for cid, ct, ci in o.clits]:
                 inc = 1 if isinstance(ty, Arr) and ty.n is None else 0
                 args = "%d %s %s" % (inc, drv_type(ty, tg), ini_m(ini))
-                lines += ["full " + args, "spec " + args, "parse " + args, "class " + args]
+                lines += ["full " + args, "spec " + args, "parse " + args, "class " + args, "imgclass " + args]
         out = self.drv_lines(lines)
         res, k = {}, 0
         for o in objs:
@@ -991,7 +991,14 @@ class Runner:
                     self.counts["refines_ref_classified"] = self.counts.get("refines_ref_classified", 0) + 1
                     if not cls.startswith("none"):
                         self.counts["refines_ref_proved"] = self.counts.get("refines_ref_proved", 0) + 1
-                k += 4
+                    # the class of the end-to-end theorem static_image_correct (emitted bytes = C11 image)
+                    icl = out[k + 4]
+                    ikey = "static_image_proved" if icl == "yes" else "static_image_differential_only:" + icl[3:]
+                    self.counts[ikey] = self.counts.get(ikey, 0) + 1
+                    if icl == "yes" and not out[k + 2].split(" | ")[0].endswith(" 1"):
+                        raise Broken("imgClass holds but the hypotheses of emitdata_image_ev do not (contradicts "
+                                     "parseinit_log_laminar): %s" % lines[k + 4][:300])
+                k += 5
         return res
 
     def check_batch(self, objs, targ, use_gcc):
@@ -1255,6 +1262,26 @@ class Runner:
             except ilpy.Unsupported as e:
                 raise Broken("ilpy: %s\n%s" % (e, r.stdout[-1500:]))
         self.counts["auto"] += 1
+        # the model of funcinit/zero (Model/InitAuto.lean; theorem auto_image_correct) against the executed code:
+        # it must agree with the run-time bytes on EVERY input, also where the static image differs (known findings)
+        inc = 1 if isinstance(o.ty, Arr) and o.ty.n is None else 0
+        mline = self.drv_lines(["auto %d %s %s" % (inc, drv_type(o.ty, tg), ini_m(o.ini))])[0]
+        if not mline.startswith("ok"):
+            raise Broken("drv_c07 auto: %s" % mline[:200])
+        mm = parse_image(mline.split(" | ")[1])
+        if len(mm) != len(got):
+            ck.violation(dict(replay, kind="auto-model-size", what="model of funcinit: %d bytes, object has %d"
+                              % (len(mm), len(got))))
+            return
+        for i, (w, g) in enumerate(zip(mm, got)):
+            if mask[i] == 0 or isinstance(w, tuple):
+                continue
+            if (w & mask[i]) != (g & mask[i]):
+                ck.violation(dict(replay, kind="auto-model", byte=i, model=hexcells(mm),
+                                  run_time=" ".join("%02x" % x for x in got),
+                                  what="model of funcinit (Model/InitAuto.lean) disagrees with the executed code at byte %d" % i))
+                return
+        self.counts["auto_model_agrees"] = self.counts.get("auto_model_agrees", 0) + 1
         bad = None
         for i, (w, g) in enumerate(zip(want, got)):
             if mask[i] == 0:
@@ -1531,6 +1558,14 @@ def run(ck):
         "by_class": {k.split(":", 1)[1]: v for k, v in sorted(R.counts.items()) if k.startswith("refines_ref_proved:")},
         "differential_only_by_first_failing_hypothesis":
             {k.split(":", 1)[1]: v for k, v in sorted(R.counts.items()) if k.startswith("refines_ref_differential_only:")}}
+    nimg = R.counts.get("static_image_proved", 0)
+    ck.cov["static_image_coverage"] = {
+        "classified": ncls, "covered_by_static_image_correct": nimg,
+        "fraction": round(nimg / ncls, 4) if ncls else None,
+        "differential_only_by_first_failing_hypothesis":
+            {k.split(":", 1)[1]: v for k, v in sorted(R.counts.items()) if k.startswith("static_image_differential_only:")}}
+    ck.notes.append("static_image_correct (emitted bytes = C11 image, end to end, proved) covers %d of %d generated "
+                    "objects (%.1f%%)" % (nimg, ncls, 100.0 * nimg / max(ncls, 1)))
     ck.notes.append("parseinit_refines_ref (cursor machine = C11 6.7.9 reference, proved) covers %d of %d generated "
                     "(type, initialiser) pairs incl. compound literals (%.1f%%); the others (designated "
                     "union-member switches = known finding union-member-switch) are compared differentially only"
@@ -1570,7 +1605,16 @@ META = {
              "fully braced or brace-elided at any depth; partial; strings; struct values; empty braces) in which no "
              "second union member is designated, the image of the cursor machine's log equals the image of the writes "
              "of the independent recursive C11 6.7.9 reference Spec/InitRef (simulation proof by induction on the "
-             "reference's recursion; counterexample theorem for designated union-member switches).  Tied to /repo on every run by compiling generated "
+             "reference's recursion; counterexample theorem for designated union-member switches).  End-to-end chain "
+             "(static_image_correct): parseinit t inc i = ok st, InitRef.ref t inc i = ok r and the decidable class "
+             "imgClass t inc i (refClass; a C layout layOK; unions and designators not combined; string literals of "
+             "their character type's width; every stored value a constant of the member's kind) imply that emitdata "
+             "succeeds on the list initadd/initclear built from parseinit's log and that the bytes of its data items "
+             "equal image r.size r.writes: (1) parseinit_log_laminar — a machine-only invariant places every logged "
+             "initialiser at a node of the object's tree of sub-objects, and under a C layout two nodes are "
+             "bit-disjoint or nested (nested later = element of an earlier string), which gives EvsOK and Wf; "
+             "(2) emitdata_image_ev — list surgery and emission = fold of writes; (3) parseinit_refines_ref — that "
+             "fold = the reference's image.  Tied to /repo on every run by compiling generated "
              "(type, initialiser) objects with the freshly built cproc-qbe for all targets and comparing every data "
              "definition with the model pipeline and with the recursive C11 6.7.9 reference (itself validated against "
              "gcc), by executing automatic objects, and by malformed inputs under ASan."),
@@ -1581,7 +1625,11 @@ META = {
              "(parseinit_refines_ref / _unb / _class: designators, overriding, brace elision, arrays of unknown size; "
              "hypothesis: no designated union-member switch, where model and reference really differ — "
              "parseinit_refines_ref_counterexample); evidence field refines_ref_coverage gives the fraction of the "
-             "generated objects inside the proved class (drv_c07 `class`), the rest is differential only.  "
+             "generated objects inside the proved class (drv_c07 `class`), the rest is differential only.  The "
+             "hypotheses of emitdata_image_ev are no longer assumed: static_image_correct has hypotheses on "
+             "(t, inc, i) only (imgClass, drv_c07 `imgclass`; evidence field static_image_coverage; the check raises "
+             "if imgClass holds while the driver's hyp flag is 0); outside imgClass (unions combined with designators, "
+             "non-constant values — static_image_correct_counterexample) the chain is differential only.  "
              "Known findings: union-member-switch (several union members initialised: not laminar, emitdata's own "
              "XXX), auto-zero-after-patch (funcinit)."),
     "technique": "Lean 4 proof (invariants over list/accumulator/stack) + differential correspondence on emitted data, gcc-validated spec, executed IL",
